@@ -17,8 +17,10 @@ def gen_salt(r, alnum_only=False):
     if not alnum_only:
         if c < 0.06:
             return ""
-        if c < 0.14:
+        if c < 0.10:
             return "sälz✓" + "".join(r.choice(SALT_CHARS) for _ in range(r.randint(0, 4)))
+        if c < 0.16:
+            return r.choice(["_", "#", "ü", "+", "@", "~"]) + "".join(r.choice(SALT_CHARS) for _ in range(r.randint(1, 8)))
     return "".join(r.choice(SALT_CHARS) for _ in range(r.randint(1, 16)))
 
 
@@ -32,6 +34,8 @@ def rand_net4(r, lens=(8, 12, 16, 20, 24, 28, 30, 32)):
 def gen_knobs(r):
     return {"set_key": "%08x" % r.getrandbits(32), "rand_seed": r.getrandbits(32), "urandom_key": r.getrandbits(32),
             "clock": 1_500_000_000 + r.getrandbits(28), "pid": r.randint(2, 60000),
+            "environ": {"TZ": r.choice(["UTC", "Asia/Tokyo", "America/Lima"]), "LANG": r.choice(["C", "en_US.UTF-8", "de_DE.UTF-8"]),
+                        "USER": r.choice(["root", "alice", "svc-netconan"]), "COLUMNS": str(r.choice([80, 132, 200]))},
             "listing_key": None if r.random() < 0.15 else "%08x" % r.getrandbits(32),
             "bufsize": r.choice([None, 8192, 8, 16, 33, 64, 200, 1024]),
             "chunk": r.choice([None, None, 1, 7, 64]),
@@ -96,9 +100,16 @@ def gen_secrets(r, n, classes=None, words=()):
         cls = r.choice(classes)
         if cls == "md5":
             cls = "md5-%d" % r.randint(1, 8)
-        for _ in range(50):
+        for attempt in range(50):
             a = G.gen_secret(r, cls)
             b = G.gen_secret(r, cls, length=len(a), like=a)
+            if attempt == 0 and out and r.random() < 0.12:
+                # a different secret that differs from an earlier one only in letter case
+                prev = out[r.choice(sorted(out))]
+                if prev["cls"] == cls and cls in ("text", "hex", "t7", "j9p", "j9p-hex"):
+                    a2, b2 = prev["a"].swapcase(), prev["b"].swapcase()
+                    if a2 != prev["a"] and b2 != prev["b"]:
+                        a, b = a2, b2
             want = {"j9p": "text", "aws": "text", "j9p-num": "num", "j9p-hex": "hex", "c9": "j9"}.get(cls, cls)
             ok = (G.classify(a) == want and G.classify(b) == want and len(a) == len(b) and a != b
                   and a not in used and b not in used
